@@ -39,13 +39,15 @@ type cmdSpec struct {
 	Stdout string // written to its stdout at start
 	Echo   bool   // copies stdin to stdout
 	Drain  bool   // reads stdin to EOF
+	Closes bool   // does not read stdin: closes it first of all, before it creates Sink (its marker file)
 	ExKind string // e s c w
 	ExCode int
 }
 
 // every name a history may use, by id; the string is what the AWK program says
 var nameOf = map[int]string{
-	1: "f1", 2: "f2", 3: "c1", 4: "c2", 5: "s2", 9: "nodir/x",
+	1: "f1", 2: "f2", 3: "c1", 4: "c2", 5: "s2", 6: "m1", 7: "m2", 8: "m3", 9: "nodir/x",
+	17: "exec 0<&-; : > m1; exit 3", 18: "exec 0<&-; : > m2; sleep 0.05; echo late; exit 5", 19: "exec 0<&-; : > m3; exit 0",
 	10: "exec cat >> c1", 11: "cat >> c2; exit 3", 12: "printf SYSOUT", 13: "printf xyz >> s2; exit 2",
 	14: "cat", 15: "printf 'l1\\nl2\\n'; exit 4", 16: "kill -9 $$",
 }
@@ -59,6 +61,10 @@ var specs = map[int]cmdSpec{
 	14: {Sink: -1, Echo: true, Drain: true, ExKind: "e"},
 	15: {Sink: -1, Stdout: "l1\nl2\n", ExKind: "e", ExCode: 4},
 	16: {Sink: -1, ExKind: "s", ExCode: 9},
+	// commands that never read what is piped to them: stdin closed, then the marker file, then the rest
+	17: {Sink: 6, Closes: true, ExKind: "e", ExCode: 3},
+	18: {Sink: 7, Closes: true, Stdout: "late\n", ExKind: "e", ExCode: 5},
+	19: {Sink: 8, Closes: true, ExKind: "e", ExCode: 0},
 	// a file name run as a command: "sh: f1: not found", exit status 127
 	1: {Sink: -1, ExKind: "e", ExCode: 127},
 	2: {Sink: -1, ExKind: "e", ExCode: 127},
@@ -169,6 +175,8 @@ func (o op) render(mode string) string {
 		return fmt.Sprintf("exit %d", o.Code)
 	case "E":
 		return "x = 1 / ZERO"
+	case "W":
+		return "do { r = (getline ln < " + nm + ") } while (r < 0); R(r); if (r == 1) L(ln)"
 	}
 	panic("op " + o.K)
 }
@@ -202,7 +210,7 @@ func (h history) modelLine() string {
 	t = append(t, strconv.Itoa(len(ids)))
 	for _, id := range ids {
 		s := specOf(id)
-		t = append(t, strconv.Itoa(id), strconv.Itoa(s.Sink), hx.HexS(s.Append), hx.HexS(s.Stdout), b01(s.Echo), b01(s.Drain), s.ExKind, strconv.Itoa(s.ExCode))
+		t = append(t, strconv.Itoa(id), strconv.Itoa(s.Sink), hx.HexS(s.Append), hx.HexS(s.Stdout), b01(s.Echo), b01(s.Drain), b01(s.Closes), s.ExKind, strconv.Itoa(s.ExCode))
 	}
 	t = append(t, strconv.Itoa(len(badNames)))
 	for _, id := range badNames {
@@ -229,7 +237,7 @@ func (h history) modelLine() string {
 			for _, p := range o.Pieces {
 				t = append(t, hx.HexS(p))
 			}
-		case "C", "F", "S", "G", "K":
+		case "C", "F", "S", "G", "K", "W":
 			t = append(t, o.K, strconv.Itoa(o.Name))
 		case "I", "E":
 			t = append(t, o.K)
@@ -253,11 +261,20 @@ var errInjected = errors.New("injected write failure")
 
 // failW accepts limit bytes in total, then fails for ever (limit < 0: never).
 type failW struct {
+	mu    sync.Mutex
 	data  []byte
 	limit int
 }
 
+func (f *failW) snapshot() []byte {
+	f.mu.Lock()
+	defer f.mu.Unlock()
+	return append([]byte{}, f.data...)
+}
+
 func (f *failW) Write(p []byte) (int, error) {
+	f.mu.Lock()
+	defer f.mu.Unlock()
 	if f.limit < 0 || len(f.data)+len(p) <= f.limit {
 		f.data = append(f.data, p...)
 		return len(p), nil
@@ -385,7 +402,7 @@ func runImpl(h history) (oc outcome, herr error) {
 		}
 		oc.Out = b
 	} else {
-		oc.Out = fw.data
+		oc.Out = fw.snapshot()
 	}
 	oc.Obs = obs
 	oc.Stderr = errBuf.String()
@@ -440,7 +457,34 @@ func filepathOr(rel string) string {
 type refStream struct {
 	cmd   bool
 	trunc bool
+	// a command that closed its stdin (spec.Closes): nothing written to it can arrive.
+	// What the property still promises: close() waits for it, returns its exit status, and
+	// everything it wrote to the shared stdout is there when close() returns.  When the pipe
+	// error shows (fflush = -1, a later print fails) follows from the 64 KiB buffer.
+	closes   bool
+	synced   bool // the program has waited for its marker file: its stdin is closed for certain
+	buffered int
+	failed   bool
 }
+
+// flush of a stream whose reader is gone: reports whether Flush returns an error
+func (r *refRun) flushGone(st *refStream) bool {
+	if !st.closes {
+		return false
+	}
+	if st.failed {
+		return true
+	}
+	if st.buffered == 0 {
+		return false
+	}
+	if !st.synced {
+		r.untimed = true // the child may or may not have closed its stdin yet
+	}
+	st.buffered, st.failed = 0, true
+	return true
+}
+
 type refIn struct {
 	cmd  bool
 	rest []byte
@@ -524,6 +568,11 @@ func reference(h history) *refRun {
 			data := strings.Join(o.Pieces, "")
 			switch o.Dest {
 			case "o", "d", "v":
+				for id, st := range r.outs {
+					if st.cmd && st.closes && specOf(id).Stdout != "" {
+						r.untimed = true // that child writes to the shared stdout whenever it gets to it
+					}
+				}
 				r.own(data)
 			default:
 				if _, ok := r.ins[o.Name]; ok {
@@ -534,12 +583,15 @@ func reference(h history) *refRun {
 				if !ok {
 					if o.Dest == "p" {
 						sp := specOf(o.Name)
-						if !sp.Drain || sp.Echo || sp.Stdout != "" {
+						if (!sp.Drain && !sp.Closes) || sp.Echo || (sp.Stdout != "" && !sp.Closes) {
 							r.untimed = true
+						}
+						if _, ex := r.fs[sp.Sink]; sp.Closes && ex {
+							r.untimed = true // a stale marker proves nothing
 						}
 						r.startProc(o.Name)
 						r.child(sp.Stdout)
-						st = &refStream{cmd: true}
+						st = &refStream{cmd: true, closes: sp.Closes}
 					} else {
 						if isBad(o.Name) {
 							r.result = "e"
@@ -554,7 +606,17 @@ func reference(h history) *refRun {
 					}
 					r.outs[o.Name] = st
 				}
-				if st.cmd {
+				if st.cmd && st.closes {
+					if st.failed {
+						r.result = "e"
+						return r
+					}
+					st.buffered += len(data)
+					if st.buffered > 65536 && r.flushGone(st) {
+						r.result = "e"
+						return r
+					}
+				} else if st.cmd {
 					sp := specOf(o.Name)
 					if sp.Sink >= 0 {
 						r.appendFile(sp.Sink, data)
@@ -576,24 +638,60 @@ func reference(h history) *refRun {
 				r.obs = append(r.obs, "r:"+strconv.Itoa(c))
 			} else if st, ok := r.outs[o.Name]; ok {
 				delete(r.outs, o.Name)
+				r.flushGone(st)
 				r.obs = append(r.obs, "r:"+strconv.Itoa(closeOut(o.Name, st)))
 			} else {
 				r.obs = append(r.obs, "r:-1")
 			}
 		case "F":
 			if o.Name < 0 {
-				r.obs = append(r.obs, "r:0")
-			} else if _, ok := r.outs[o.Name]; ok {
-				r.obs = append(r.obs, "r:0")
+				bad := false
+				for _, st := range r.outs {
+					if r.flushGone(st) {
+						bad = true
+					}
+				}
+				if bad {
+					r.obs = append(r.obs, "r:-1")
+				} else {
+					r.obs = append(r.obs, "r:0")
+				}
+			} else if st, ok := r.outs[o.Name]; ok {
+				if r.flushGone(st) {
+					r.obs = append(r.obs, "r:-1")
+				} else {
+					r.obs = append(r.obs, "r:0")
+				}
 			} else {
 				r.obs = append(r.obs, "r:-1")
 			}
 		case "S":
 			sp := specOf(o.Name)
+			for _, st := range r.outs {
+				r.flushGone(st)
+			}
 			r.startProc(o.Name)
 			r.child(sp.Stdout)
 			r.obs = append(r.obs, "r:"+strconv.Itoa(exitCode(sp)))
-		case "G":
+		case "G", "W":
+			if o.K == "W" {
+				_, ex := r.fs[o.Name]
+				if _, in := r.ins[o.Name]; !ex && !in {
+					r.untimed = true // would wait for ever; never generated
+					return r
+				}
+				for id, st := range r.outs {
+					if st.closes && specOf(id).Sink == o.Name {
+						st.synced = true
+					}
+				}
+			} else {
+				for id, st := range r.outs {
+					if st.cmd && specOf(id).Sink == o.Name && !(st.closes && st.synced) {
+						r.untimed = true // a live command is creating / writing this file
+					}
+				}
+			}
 			if _, ok := r.outs[o.Name]; ok {
 				r.result = "e"
 				return r
@@ -632,6 +730,18 @@ func reference(h history) *refRun {
 		}
 	}
 	return r
+}
+
+// childOutputAtEndOfRun: is a print | cmd stream whose command writes to the shared stdout still
+// open when the run ends (normally, by exit, or by an error)?
+func childOutputAtEndOfRun(h history) bool {
+	r := reference(h)
+	for id, st := range r.outs {
+		if sp := specOf(id); st.cmd && (sp.Stdout != "" || sp.Echo) {
+			return true
+		}
+	}
+	return false
 }
 
 // ---------------------------------------------------------------- generators
@@ -836,6 +946,23 @@ func systematic() []history {
 	add("flush-at-file-open", nil, pr("o", 0, "abcdef"), pr("t", 1, "x"), pr("o", 0, "y"))
 	add("flush-at-devstdout", nil, pr("o", 0, "abcdef"), pr("v", 0, "g"), pr("d", 0, "h"), pr("o", 0, "y"))
 	add("copy-goroutine-entry-check", nil, pr("o", 0, "abcdef"), pr("p", 10, "x"), op{K: "C", Name: 10}, pr("p", 11, "x"), op{K: "C", Name: 11})
+	// a command that has closed its stdin before the program flushes to it (EPIPE): close() must still
+	// wait for it and report its exit status; its output on the shared stdout must be there afterwards.
+	// The program knows the child's stdin is closed because it has waited for the marker file the
+	// child creates after closing it (W = do getline < marker while it does not exist): no sleep,
+	// and reading a file flushes nothing.
+	add("epipe-close-status", nil, pr("p", 17, "x"), op{K: "W", Name: 6}, op{K: "C", Name: 17}, op{K: "C", Name: 6}, pr("o", 0, "after"))
+	add("epipe-close-late-output", nil, pr("o", 0, "a"), pr("p", 18, "x"), op{K: "W", Name: 7}, op{K: "C", Name: 18}, pr("o", 0, "after"))
+	add("epipe-close-exit0", nil, pr("p", 19, "x"), op{K: "W", Name: 8}, op{K: "C", Name: 19}, op{K: "C", Name: 19})
+	add("epipe-fflush", nil, pr("p", 17, "x"), op{K: "W", Name: 6}, op{K: "F", Name: 17}, op{K: "F", Name: -1}, op{K: "C", Name: 17})
+	add("epipe-print-after-error", nil, pr("p", 17, "x"), op{K: "W", Name: 6}, op{K: "F", Name: 17}, pr("p", 17, "z"), pr("o", 0, "not reached"))
+	add("epipe-big-print-end-of-run", nil, pr("p", 18, "x"), op{K: "W", Name: 7}, pr("p", 18, strings.Repeat("0123456789abcdef", 4100)), pr("o", 0, "not reached"))
+	add("epipe-closeall", nil, pr("o", 0, "a"), pr("p", 18, "x"), op{K: "W", Name: 7})
+	add("epipe-exit-closeall", nil, pr("p", 18, "x"), pr("p", 17, "y"), op{K: "W", Name: 7}, op{K: "W", Name: 6}, op{K: "X", Code: 2})
+	add("epipe-system-flushes", nil, pr("p", 17, "x"), op{K: "W", Name: 6}, op{K: "S", Name: 13}, op{K: "C", Name: 17})
+	add("epipe-nothing-buffered", nil, pr("p", 17, ""), op{K: "W", Name: 6}, op{K: "F", Name: 17}, op{K: "C", Name: 17})
+	add("epipe-two-commands", nil, pr("p", 17, "x"), pr("p", 18, "y"), op{K: "W", Name: 6}, op{K: "W", Name: 7}, op{K: "C", Name: 18}, op{K: "C", Name: 17}, pr("o", 0, "after"))
+	add("epipe-unsynced-close", nil, pr("p", 17, "x"), op{K: "C", Name: 17}) // timing decides: the model answers unmod
 	add("exact-fill", nil, pr("p", 10, "x"), pr("o", 0, "0123456789abcdef"), op{K: "C", Name: 10}, pr("o", 0, "z"))
 	return hs
 }
@@ -1012,10 +1139,126 @@ func raceSearch(rep *hx.Report, tries int, only string) {
 	}
 }
 
+// ---------------------------------------------------------------- isolation
+// The implementation is run in a worker process (this binary with -worker), one case at a time over a
+// pipe.  A defect that lets goawk return while a child's copying goroutine is still using Config.Output
+// can panic in that goroutine, which nothing can recover; the worker then dies, the case is reported
+// as a panic of the implementation, and a fresh worker takes the next case.
+
+type workerReply struct {
+	Outcome outcome
+	Err     string
+}
+
+func workerMain() {
+	homeDir, _ = os.Getwd()
+	in := bufio.NewReaderSize(os.Stdin, 1<<20)
+	out := bufio.NewWriter(os.Stdout)
+	for {
+		line, err := in.ReadBytes('\n')
+		if len(line) > 0 {
+			var h history
+			var rp workerReply
+			if e := json.Unmarshal(line, &h); e != nil {
+				rp.Err = "bad request: " + e.Error()
+			} else {
+				oc, e := runImpl(h)
+				rp.Outcome = oc
+				if e != nil {
+					rp.Err = e.Error()
+				}
+			}
+			b, _ := json.Marshal(rp)
+			out.Write(b)
+			out.WriteByte('\n')
+			out.Flush()
+		}
+		if err != nil {
+			return
+		}
+	}
+}
+
+type worker struct {
+	cmd    *exec.Cmd
+	stdin  io.WriteCloser
+	stdout *bufio.Reader
+	stderr *lockedBuf
+}
+
+var theWorker *worker
+
+func startWorker() (*worker, error) {
+	cmd := exec.Command(os.Args[0], "-worker")
+	cmd.Dir = homeDir
+	stdin, err := cmd.StdinPipe()
+	if err != nil {
+		return nil, err
+	}
+	stdout, err := cmd.StdoutPipe()
+	if err != nil {
+		return nil, err
+	}
+	eb := &lockedBuf{}
+	cmd.Stderr = eb
+	if err := cmd.Start(); err != nil {
+		return nil, err
+	}
+	return &worker{cmd: cmd, stdin: stdin, stdout: bufio.NewReaderSize(stdout, 1<<20), stderr: eb}, nil
+}
+
+func stopWorker() {
+	if theWorker != nil {
+		theWorker.stdin.Close()
+		theWorker.cmd.Wait()
+		theWorker = nil
+	}
+}
+
+// runIsolated: runImpl(h) in the worker.  A dead worker is a panic of the implementation on h.
+func runIsolated(h history) (outcome, error) {
+	if theWorker == nil {
+		w, err := startWorker()
+		if err != nil {
+			return outcome{}, fmt.Errorf("cannot start worker: %v", err)
+		}
+		theWorker = w
+	}
+	w := theWorker
+	req, _ := json.Marshal(h)
+	_, werr := w.stdin.Write(append(req, '\n'))
+	var line []byte
+	var rerr error
+	if werr == nil {
+		line, rerr = w.stdout.ReadBytes('\n')
+	}
+	if werr != nil || rerr != nil {
+		w.stdin.Close()
+		w.cmd.Wait()
+		theWorker = nil
+		msg := w.stderr.String()
+		if len(msg) > 1500 {
+			msg = msg[:1500]
+		}
+		return outcome{Result: "panic", ErrMsg: "the process running the implementation died: " + msg, Files: map[int][]byte{}}, nil
+	}
+	var rp workerReply
+	if err := json.Unmarshal(line, &rp); err != nil {
+		return outcome{}, fmt.Errorf("bad worker reply: %v", err)
+	}
+	if rp.Err != "" {
+		return rp.Outcome, errors.New(rp.Err)
+	}
+	if rp.Outcome.Files == nil {
+		rp.Outcome.Files = map[int][]byte{}
+	}
+	return rp.Outcome, nil
+}
+
 // ---------------------------------------------------------------- main
 
 func runCase(h history, rep *hx.Report) *kase {
-	oc, err := runImpl(h)
+	oc, err := runIsolated(h)
 	if err != nil {
 		rep.HarnessError("%v", err)
 		return nil
@@ -1066,7 +1309,8 @@ func replay(o hx.Opts) {
 			os.Exit(2)
 		}
 		fmt.Printf("program:\n%smode=%s cap=%d limit=%d\n", h.program(), h.Mode, h.Cap, h.Limit)
-		oc, err := runImpl(h)
+		oc, err := runIsolated(h)
+		stopWorker()
 		if err != nil {
 			fmt.Println(err)
 			os.Exit(2)
@@ -1092,7 +1336,12 @@ func replay(o hx.Opts) {
 
 func main() {
 	rc := flag.String("racechild", "", "internal: run a shared-writer workload (silent|echo) and print what arrived")
+	wk := flag.Bool("worker", false, "internal: run cases read from stdin (one JSON history per line)")
 	o := hx.ParseFlags()
+	if *wk {
+		workerMain()
+		return
+	}
 	if *rc != "" {
 		raceChild(*rc)
 		return
@@ -1152,6 +1401,12 @@ func main() {
 			continue
 		}
 		for k := 0; k <= len(ref.stdout); k++ {
+			if strings.HasPrefix(h.Tag, "epipe-") && (o.Tier != "thorough") && k != 0 && k != len(ref.stdout)/2 && k != len(ref.stdout) {
+				continue // these histories wait for a child: three offsets in the quick tier
+			}
+			if h.Tag == "epipe-big-print-end-of-run" && k != len(ref.stdout)/2 {
+				continue
+			}
 			hs = append(hs, withMode(h, "buf", []int{16, 4, 1, 64}[k%4], k))
 			if k%3 == 0 {
 				hs = append(hs, withMode(h, "unbuf", 0, k))
@@ -1173,6 +1428,15 @@ func main() {
 	var kept []string
 	slow := time.Duration(0)
 	for i, h := range hs {
+		if h.Mode != "osfile" && childOutputAtEndOfRun(h) {
+			// a child that writes to the shared stdout is only closed by closeAll: if os/exec's
+			// WaitDelay (250 ms after the child's exit) runs out on an overloaded machine its last
+			// output is dropped and closeAll discards the diagnostic, so nothing would tell.  With
+			// Output = *os.File there is no copying goroutine and the case is compared.
+			rep.Unmodelled++
+			rep.Count("unmodelled:child-output-at-closeAll")
+			continue
+		}
 		if model[i] == "unmod" {
 			// timing decides the outcome (a child and the program use Output at the same time,
 			// or a child is killed by SIGPIPE): not run, counted
@@ -1201,6 +1465,7 @@ func main() {
 		ks = append(ks, k)
 		kept = append(kept, model[i])
 	}
+	stopWorker()
 	model = kept
 	for i, k := range ks {
 		rep.CorrEvals++
